@@ -83,7 +83,7 @@ func (ex *Exec) monitorAcquire(st *State, key string, lockArg ssa.Value, pos tok
 	}
 	ex.acquireMonitor(st, mname, ref, owner)
 	ex.nacq++
-	if ex.nacq == 1 && ex.curInstr != nil && (ex.curInstr.Block().Index == 0 || (ex.con != nil && len(ex.con.Acquires) > 0 && ex.curInstr.Block().Dominates(ex.fn.Blocks[len(ex.fn.Blocks)-1]) || ex.lockDominatesReturns())) {
+	if ex.nacq == 1 && ex.curInstr != nil && ((ex.con != nil && len(ex.con.Acquires) > 0) || ex.curInstr.Block().Index == 0 || (ex.con != nil && len(ex.con.Acquires) > 0 && ex.curInstr.Block().Dominates(ex.fn.Blocks[len(ex.fn.Blocks)-1]) || ex.lockDominatesReturns())) {
 		// the function's linearisation point: old() refers to the state seen under the lock
 		keep := ex.entry
 		ex.entry = st.clone()
